@@ -450,11 +450,9 @@ class FromPandas(PartitionsFiltered, BlockwiseIO):
     def _get_lengths(self) -> tuple | None:
         if self._pd_length_stats is None:
             locations = self._locations()
-            self._pd_length_stats = tuple(
-                offset - locations[i]
-                for i, offset in enumerate(locations[1:])
-                if not self._filtered or i in self._partitions
-            )
+            lengths = [offset - locations[i] for i, offset in enumerate(locations[1:])]
+            # by position: a selection may repeat or reorder partitions
+            self._pd_length_stats = tuple(lengths[i] for i in self._partitions)
         return self._pd_length_stats
 
     def _simplify_up(self, parent, dependents):
